@@ -96,6 +96,7 @@ fn main() {
                 "c18_shlib" => ("C18", c18s::part_shlib(tier)),
                 "c17_names" => ("C17", c17e::part_names(tier)),
                 "c15_dap" => ("C15", c15d::part_dap_data(tier)),
+                "c05_threads" => ("C05", mt::part_c05_threads(tier)),
                 "c07_std" => ("C07", c06s::part_std(tier, true)),
                 "c09_real" => ("C09", mt::part_c09_real(tier)),
                 "c14_threads" => ("C14", mt::part_c14_threads(tier)),
@@ -168,6 +169,7 @@ fn run_check(id: &str, tier: Tier) -> i32 {
             let mut r = Report::new("C05", tier, "model_checking");
             r.parts.push(c01::part_c05(tier));
             r.parts.push(c12::part_c05_dap_frames(tier));
+            r.parts.push(mt::part_c05_threads(tier));
             finish(r)
         }
         "C04" => {
